@@ -145,9 +145,9 @@ def _observe_scorer_session(rnd):
     from harness.drivers.c05 import ArrTheta, Dense
     from batchie.core import ThetaHolder
     from batchie.data import Screen
-    budget = rnd.choice([3, 10, 20, 35, 84, 5000])
-    scorer = G.GaussianDBALScorer(max_chunk=rnd.choice([1, 2, 50]), max_triples=budget)
-    sizes = [rnd.randint(1, 3) for _ in range(rnd.randint(1, 4))]
+    budget = rnd.choice([3, 10, 20, 35, 84, 100, 400, 5000])
+    scorer = G.GaussianDBALScorer(max_chunk=rnd.choice([1, 2, 3, 50]), max_triples=budget)
+    sizes = [rnd.randint(1, 3) for _ in range(rnd.randint(1, 8))]
     rows_pl = [p for p, e in enumerate(sizes) for _ in range(e)]
     N = len(rows_pl)
     scr = Screen(treatment_names=np.array([["a", "b"]] * N, dtype=str), treatment_doses=np.ones((N, 2)), sample_names=np.array(["s"] * N, dtype=str),
@@ -169,12 +169,13 @@ def _observe_scorer_session(rnd):
         try:
             return real_f(*a, **kw)
         finally:
-            out.append({"kind": "dbal", "n": n, "budget": int(kw.get("max_combos", 5000)), "raised": False,
+            # (the budget is the one the scorer was configured with, not whatever it hands down per chunk)
+            out.append({"kind": "dbal", "n": n, "budget": budget, "raised": False,
                         "args_ok": all(p["n"] == n and p["k"] == 3 for p in cur), "picks": [{"ind": p["ind"], "t": p["t"]} for p in cur]})
     G.get_combination_at_sorted_index, G.dbal_fast_gauss_scoring_vectorized = rec, fast
     try:
         rng = np.random.default_rng(rnd.randrange(1 << 30))
-        for n in [rnd.randint(3, 9) for _ in range(rnd.randint(2, 4))]:
+        for n in [rnd.randint(3, 14) for _ in range(rnd.randint(2, 4))]:
             h = ThetaHolder(n_thetas=n)
             for _ in range(n):
                 h.add_theta(ArrTheta(rng.normal(size=N), np.exp(rng.normal(size=N))))
